@@ -8,21 +8,23 @@ STAT_NAMES = ["initiation_consumed", "initiation_bad_mac1", "initiation_aead_fai
               "initiation_flood", "response_consumed", "response_rejected", "cookie_reply", "other_datagram",
               "transport_accepted", "transport_replayed_or_out_of_window", "transport_bad_tag",
               "transport_wrong_index_or_dead_session", "batch_with_several_elements", "tun_initiation", "tun_transport",
-              "tun_staged_only", "uapi_endpoint", "steps_where_an_endpoint_moved", "confirming_element_released_staged"]
+              "tun_staged_only", "uapi_endpoint", "steps_where_an_endpoint_moved", "confirming_element_released_staged",
+              "restart_down_up"]
 
 
 class Prop:
     pid = "C11"
     vo_check = ["theories/Roaming/Check.vo"]
     vo_props = ["theories/Props/C11.vo"]
-    k_names = ["cosim(device datagrams with destinations, endpoint of every peer after every step == Roaming.Model.step)"]
+    k_names = ["cosim(device datagrams with destinations, endpoint of every peer after every step == Roaming.Model.step)",
+               "loopback(real conn.StdNetBind on 127.0.0.1/::1: datagrams of every kind from a stranger socket leave the learnt endpoint and the destination of the next datagrams unchanged, before and after roaming)"]
     rule = ("scenarios from one PRNG against a real device (sim bind/tun, receive batch 1/4/8/16/128, remote side = ref): valid and "
             "invalid initiations, responses, cookie replies, transport messages and unknown datagrams from changing source addresses "
             "(8 addresses incl. same address/other port and IPv6), both handshake roles, a peer without configured endpoint; replays of "
             "consumed initiations and responses, older timestamps, flood, corrupt static/timestamp, stranger; transport: fresh, jumps, "
             "in-window, replayed, behind the window, bad tag, unknown index, index of another session, previous session; batches mixing "
             "peers, sources and validity, with staged packets waiting for the confirming element; UAPI endpoint=; a TUN packet after "
-            "most steps shows where the next datagram goes; non-trivial = at least one endpoint moved and at least one datagram was "
+            "most steps shows where the next datagram goes; Device.Down/Up restarts followed by replays of earlier initiations, responses and transport messages from other addresses; one pass over the real StdNetBind on loopback per run; non-trivial = at least one endpoint moved and at least one datagram was "
             "rejected; distinct by plan content")
     assumptions = ["authenticity of each datagram is a construction descriptor (valid MAC1, which static key, AEAD opens, timestamp, "
                    "counter, session, index) produced by the harness's own protocol implementation; freshness (timestamp order, flood gap, "
@@ -57,7 +59,9 @@ class Prop:
         shards = 8 if tier == "quick" else 32
         files, cases = self._run_go(["-seed", str(seed), "-n", str(n), "-shards", str(shards), "-out", self.dir,
                                      "-corpus", os.path.join(vlib.ROOT, "corpus", "C11")])
-        self.extra_coverage = {"discarded_scenarios": sum(1 for c in cases if not c.get("steps")),
+        lb = [c["loopback"] for c in cases if c.get("loopback")]
+        self.extra_coverage = {"loopback_stdnetbind": lb[0] if lb else None,
+                               "discarded_scenarios": sum(1 for c in cases if not c.get("steps") and not c.get("loopback")),
                                "retries_slow_or_ambiguous_flood_gap": sum(c.get("slow", 0) for c in cases)}
         return files, cases
 
@@ -67,6 +71,10 @@ class Prop:
         for s, f in zip(shards, files):
             for (idx, kind, pos) in vlib.parse_n_tuples(vlib.coq_value(outputs[f], "bad")):
                 res.append({"case": s["first"] + idx, "kind": kind, "pos": pos})
+        for i, c in enumerate(cases):
+            lb = c.get("loopback")
+            if lb and lb.get("status") == "violation":
+                res.append({"case": i, "kind": 2, "pos": 0, "loopback": lb.get("detail", "")[:400]})
         return res
 
     def failures(self, outputs, files, cases):
@@ -83,7 +91,7 @@ class Prop:
         d = os.path.join(self.dir, "rerun")
         os.makedirs(d, exist_ok=True)
         inp = os.path.join(d, "in.json")
-        json.dump([{"gen": c.get("gen", ""), "plan": c.get("plan") or [], "batch": c.get("batch", 8)} for c in cases], open(inp, "w"))
+        json.dump([{"gen": c.get("gen", ""), "plan": c.get("plan") or [], "batch": c.get("batch", 8), "loopback": c.get("loopback")} for c in cases], open(inp, "w"))
         exe = vlib.build_go("c11")
         rc, o = vlib.sh([exe, "-replay", inp, "-out", d], cwd=vlib.ROOT, timeout=3000)
         if rc != 0:
@@ -105,6 +113,8 @@ class Prop:
             chunk //= 2
 
     def signature(self, case, f):
+        if case.get("loopback") or f.get("loopback"):
+            return "loopback-stdnetbind"
         steps = case.get("steps") or []
         pos = f.get("pos", 0)
         if pos >= len(steps):
@@ -118,10 +128,14 @@ class Prop:
                                          kinds, "moved" if s.get("moved") else "stayed")
 
     def nontrivial(self, c):
+        if c.get("loopback"):
+            return c["loopback"].get("status") == "ok"
         steps = c.get("steps") or []
         return any(s.get("moved") for s in steps) and len(steps) >= 4
 
     def sample(self, c):
+        if c.get("loopback"):
+            return {"gen": c["gen"], "loopback": c["loopback"]}
         return {"gen": c.get("gen"), "batch": c.get("batch"),
                 "steps": [{"event": s["event"][:200], "observed": s.get("outs"), "endpoints": s.get("eps")} for s in (c.get("steps") or [])[:6]],
                 "length": len(c.get("steps") or [])}
@@ -137,7 +151,7 @@ def replay(path):
     case = obj.get("input") or obj
     fs = p.run_cases([case])
     r = p.last_rerun[0]
-    print(json.dumps({"failures": fs,
+    print(json.dumps({"failures": fs, "loopback": r.get("loopback"),
                       "observed": [{"event": s["event"], "outs": s.get("outs"), "endpoints": s.get("eps")} for s in (r.get("steps") or [])]})[:6000])
     if any(f["kind"] == 2 for f in fs):
         print("VIOLATION property=C11 replay=%s" % path)
